@@ -16,8 +16,18 @@ import (
 
 var commands = map[string]hlib.Handler{}
 
-// classification of one literal: 0 name, 1 number (+ IEEE bits), 2 rejected
+// classification of one literal: 0 name, 1 number (+ IEEE bits), 2 rejected.  Every literal is classified twice: the answer
+// is a function of the spelling, not of what the process classified before (10+c = the second answer c differs from the first)
 func matchID(rs []rune) (int, uint64) {
+	c1, b1 := matchOnce(rs)
+	c2, b2 := matchOnce(append([]rune{}, rs...))
+	if c1 != c2 || b1 != b2 {
+		return 10 + c2, b2
+	}
+	return c1, b1
+}
+
+func matchOnce(rs []rune) (int, uint64) {
 	id := &syntax.ID{}
 	id.SetLiteral(rs)
 	t, err := exec.MatchIDType(id)
@@ -65,6 +75,9 @@ func main() {
 					buf[i] = alpha[idx[i]]
 				}
 				k, _ := matchID(buf)
+				if k > 3 {
+					k = 3 // the two classifications of the literal differ
+				}
 				sb.WriteByte(byte('0' + k))
 				// increment (last position least significant)
 				p := l - 1
